@@ -27,7 +27,10 @@ fn gen_objects(r: &mut Prng, count: usize, max_depth: usize) -> Vec<ExtObject> {
                     .collect();
                 mpls_object(&entries)
             } else {
-                let n = r.below(9) as usize * 4;
+                // RFC 4884 gives an object's length in octets and asks for no padding between objects:
+                // one unknown-class object in four has a size that is not a multiple of four, and
+                // the object after it begins right where its length says it ends
+                let n = if r.chance(1, 4) { r.below(36) as usize } else { r.below(9) as usize * 4 };
                 ExtObject { class_num: r.range(2, 255) as u8, c_type: r.below(256) as u8, payload: r.bytes(n) }
             }
         })
